@@ -362,6 +362,11 @@ pub fn run(ctx: &Ctx) -> ! {
     // two sibling folds, in a nested fold and then a sibling of its parent, count tags, ...)
     let cfg2 = corpus::structures_cfg(&uni, ctx.tier.pick(2, 3), vec!["Pt", "Fct"], ctx.tier.pick(2, 3));
     let stats2 = corpus::drive(ctx, &uni, &cfg2, &per_query, &|_| {}, &|_, _| {});
+    // third space: one variable used in two filters (two vertices / two operators, either order)
+    let cfg3 = corpus::var_reuse_cfg(&uni);
+    let stats3 = corpus::drive(ctx, &uni, &cfg3, &per_query, &|_| {}, &|text, p| {
+        ctx.fail(&p.key(), "the frontend panicked while compiling", json!({"schema_id": "S-verif", "query_text": text, "observed": p.to_json()}));
+    });
     let _ = Arc::new(0);
     let mut c = cov();
     c.insert("evaluations".into(), json!(checked.load(Ordering::Relaxed)));
@@ -369,8 +374,9 @@ pub fn run(ctx: &Ctx) -> ! {
     c.insert("rule".into(), json!("every query of two enumerated spaces (k deviations from the skeletons; two-edge structures + tag deviations) accepted by the frontend is checked against invariants I1-I9 (DESIGN.md C11); distinct = distinct IRs containing a fold or a tag"));
     c.insert("corpus".into(), stats.to_json());
     c.insert("corpus_tag_structures".into(), stats2.to_json());
+    c.insert("corpus_variable_reuse".into(), stats3.to_json());
     c.insert("samples".into(), json!(samples.lock().unwrap().items));
-    c.insert("exhaustive".into(), json!(!stats.capped && !stats2.capped));
+    c.insert("exhaustive".into(), json!(!stats.capped && !stats2.capped && !stats3.capped));
     ctx.finish("exploration", c, vec!["invariants are those listed in DESIGN.md C11, written from ir/indexed.rs's comment and execution.rs's asserts".into()])
 }
 
